@@ -442,7 +442,8 @@ fn main() {
     // changed, at every word index (to two words above the top) and every digit position
     let mut nb: Vec<BigInt> = (1i64..=12).chain([52, 99, 1000]).map(BigInt::from).collect();
     nb.extend([(BigInt::one() << 32usize) + 1, (BigInt::one() << 64usize) - 1, (BigInt::one() << 64usize) + 10, pow10(19) + 7, big(&filler_digits(run.seed(), 40, 40))]);
-    let ne = near_equal_pairs(tier.pick(40, 60), &nb);
+    let mut ne = near_equal_pairs(tier.pick(40, 60), &nb);
+    ne.extend(near_equal_pairs_extended(run.seed()));
     run.bound("S9_near_equal_pairs", ne.len());
     run.par("S9 near-equal pairs (one word / one digit changed)", (ne.len() + 255) / 256, |blk| {
         let mut t = Tally::default();
